@@ -106,6 +106,31 @@ theorem fitModel_terms (env : Env) (w : World) (i : Nat) (d : Data) (k : Nat) (m
   rw [← compiled_eq_fresh]
   simpa [World.viewOf, preparedRec] using this
 
+/-! ## `gam.terms = e` -/
+
+theorem assignTerms_rec (w : World) (i e : Nat) (m : Model) (ex : List Nat) (hm : w.models[i]? = some m)
+    (he : w.exprs[e]? = some ex) :
+    (assignTerms w i e).models[i]? = some { m with terms := freshIds w.terms.length (ex.map w.term).length } := by
+  have hi : i < w.models.length := (List.getElem?_eq_some_iff.mp hm).1
+  unfold assignTerms
+  rw [hm, he]
+  simp [hi]
+
+/-- after `gam.terms = e` the model holds copies of the expression's term objects and keeps everything else -/
+theorem assignTerms_view {w : World} (h : Inv w) (i e : Nat) (m : Model) (ex : List Nat) (hm : w.models[i]? = some m)
+    (he : w.exprs[e]? = some ex) :
+    (assignTerms w i e).view i = some { w.viewOf m with terms := ex.map w.term } := by
+  have hr := assignTerms_rec w i e m ex hm he
+  have ht : (assignTerms w i e).terms = w.terms ++ ex.map w.term := by unfold assignTerms; rw [hm, he]
+  have hd : (assignTerms w i e).dists = w.dists := by unfold assignTerms; rw [hm, he]
+  have hl : (assignTerms w i e).logs = w.logs := by unfold assignTerms; rw [hm, he]
+  have e1 := term_map_of_terms (assignTerms w i e) _ _ ht
+  have hdist : (assignTerms w i e).dist = w.dist := by funext x; simp [World.dist, hd]
+  have hlog : (assignTerms w i e).log = w.log := by funext x; simp [World.log, hl]
+  unfold World.view
+  rw [hr]
+  simp only [Option.map_some, World.viewOf, e1, hdist, hlog]
+
 /-! ## copies -/
 
 theorem copyModel_view {w : World} (i : Nat) (m : Model) (hm : w.models[i]? = some m) :
@@ -194,6 +219,10 @@ theorem step_keeps (env : Env) {w : World} (o : Op) (h : Inv w) : Keeps o.target
   | copy i =>
     simp only [step]; split
     · exact copyModel_keeps i h
+    · exact Keeps.refl h _
+  | assignTerms i e =>
+    simp only [step]; split
+    · exact assignTerms_keeps i e h
     · exact Keeps.refl h _
 
 theorem inv_step (env : Env) {w : World} (o : Op) (h : Inv w) : Inv (step env w o).1 := (step_keeps env o h).inv
